@@ -329,10 +329,13 @@ def run(chk: Check):
         _b1_sim(chk, dict(MaxEp=1, MaxInj=1, MaxAcks=1, Tries=10, Reorder=0, Depth=14, Unit=0.25), "budget-d14", 300, 3)
         _b1_sim(chk, dict(MaxEp=3, MaxInj=4, MaxAcks=1, Tries=10, Reorder=1, Depth=10, W=1), "evict-W1-d10", 150, 10)
     else:
-        _b1(chk, dict(MaxEp=2, MaxInj=2, MaxAcks=2, Tries=10, Reorder=1, Depth=5, Unit=0.5), "exhaustive-d5")
-        _b1(chk, dict(MinEp=0, MaxEp=1, MaxInj=2, MaxAcks=2, Tries=10, Reorder=1, Depth=5), "from0-d5")
+        # depth 5 with the quick constants is ~10x the depth-4 graph (export alone takes minutes with one worker):
+        # the exhaustive part stays at depth 4 with every merge pair, depth 5 is explored with thinner constants
+        _b1(chk, dict(MaxEp=2, MaxInj=2, MaxAcks=2, Tries=10, Reorder=1, Depth=4, Unit=0.5), "exhaustive-d4", pairs=150000)
+        _b1(chk, dict(MaxEp=2, MaxInj=1, MaxAcks=1, Tries=10, Reorder=0, Depth=5, Unit=0.5), "exhaustive-thin-d5", pairs=40000)
+        _b1(chk, dict(MinEp=0, MaxEp=1, MaxInj=2, MaxAcks=1, Tries=10, Reorder=1, Depth=4), "from0-d4", pairs=40000)
         _b1_sim(chk, dict(MinEp=0, MaxEp=2, MaxInj=3, MaxAcks=2, Tries=10, Reorder=1, Depth=10), "simulate-from0-d10", 2500, 12)
-        _b1(chk, dict(MaxEp=2, MaxInj=3, MaxAcks=2, Tries=10, Reorder=1, Depth=4, Disps="DispsTakes"), "takes-d4")
+        _b1(chk, dict(MaxEp=2, MaxInj=3, MaxAcks=1, Tries=10, Reorder=0, Depth=4, Disps="DispsTakes"), "takes-d4", pairs=40000)
         _b1_sim(chk, dict(MaxEp=3, MaxInj=3, MaxAcks=2, Tries=10, Reorder=1, Depth=10, Disps="DispsAll"), "simulate-d10", 2500, 12)
         _b1_sim(chk, dict(MaxEp=1, MaxInj=1, MaxAcks=1, Tries=10, Reorder=0, Depth=16, Unit=0.25), "budget-d16", 5000, 3)
         _b1_sim(chk, dict(MaxEp=3, MaxInj=4, MaxAcks=1, Tries=10, Reorder=1, Depth=11, W=1), "evict-W1-d11", 2500, 10)
